@@ -389,12 +389,22 @@ func updateStatusConditionsFromOwnedObject(
 			continue
 		}
 
+		// Conditions of arbitrary objects may lack fields or carry non-string values.
+		var condFields [4]string
+		for i, field := range []string{"type", "status", "reason", "message"} {
+			value, _, err := unstructured.NestedString(condMap, field)
+			if err != nil {
+				return apimachineryerrors.NewBadRequest("malformed condition: " + err.Error())
+			}
+			condFields[i] = value
+		}
+
 		newCond := metav1.Condition{
-			Type:               condMap["type"].(string),
-			Status:             metav1.ConditionStatus(condMap["status"].(string)),
+			Type:               condFields[0],
+			Status:             metav1.ConditionStatus(condFields[1]),
 			ObservedGeneration: objectTemplate.ClientObject().GetGeneration(),
-			Reason:             condMap["reason"].(string),
-			Message:            condMap["message"].(string),
+			Reason:             condFields[2],
+			Message:            condFields[3],
 		}
 		meta.SetStatusCondition(objectTemplate.GetConditions(), newCond)
 	}
